@@ -71,6 +71,13 @@ class Inst:
         return self._dunder('__setitem__', SliceLit(idx) if isinstance(idx, slice) else idx, value)
     def __len__(self):
         return self._dunder('__len__')
+    def __bool__(self):
+        if self._folder is not None:
+            if self._folder.sibling(self._mod).find_method(self._cls, '__bool__')[1] is not None:
+                return bool(self._dunder('__bool__'))
+            if self._folder.sibling(self._mod).find_method(self._cls, '__len__')[1] is not None:
+                return self._dunder('__len__') > 0
+        return True
     def __eq__(self, other):
         if self._folder is not None and self._folder.find_method(self._cls, '__eq__')[1] is not None:
             return bool(self._dunder('__eq__', other))
